@@ -6,11 +6,13 @@ from mc import explorer
 
 def replay(mod, prop, path):
     art = json.load(open(path))
-    if hasattr(mod, "replay"):
+    from mc import pairs
+
+    if hasattr(mod, "replay") and not str(art.get("system", "")).startswith(pairs.PREFIX):
         r = mod.replay(art)
         if r is not None:
             return r
-    system = mod.SYSTEMS[art["system"]]
+    system = pairs.resolve(mod, art["system"])
     print("replaying %s on %s" % (path, system.name))
     print("cfg    :", json.dumps(art["cfg"]))
     print("events :", json.dumps(art["events"]))
